@@ -191,6 +191,23 @@ class Ctx:
         r = run_lines(model_bin(), [f'{k} {op}' for k, op in enumerate(ops)], 16)
         return [r.get(str(k)) for k in range(len(ops))]
 
+    def go_race(self, ops, timeout=1800):
+        """run ops in ONE process of the -race build; returns (results, race report text or '')"""
+        rb, err = build_harness(race=True)
+        if not rb:
+            self.infra.append('race build failed: ' + err[-300:])
+            return [None] * len(ops), ''
+        tf = tempfile.TemporaryFile('w+')
+        tf.write('\n'.join(f'{k} {op}' for k, op in enumerate(ops)) + '\n'); tf.flush(); tf.seek(0)
+        env = dict(self.goenv, GORACE='halt_on_error=0', VERIF_OP_TIMEOUT_MS='120000')
+        p = subprocess.run([rb], stdin=tf, stdout=subprocess.PIPE, stderr=subprocess.PIPE, text=True, env=env, timeout=timeout)
+        res = {}
+        for l in p.stdout.splitlines():
+            sp = l.split(' ', 1)
+            if len(sp) == 2: res[sp[0]] = sp[1]
+        race = p.stderr if 'DATA RACE' in p.stderr else ''
+        return [res.get(str(k)) for k in range(len(ops))], race
+
     def both(self, ops):
         ops = list(ops)
         g, m = self.go(ops), self.model(ops)
